@@ -53,7 +53,7 @@ func runControls(r *Report, id, repo, verif string) {
 		return
 	}
 	results := make([]ctl, len(todo))
-	sem := make(chan struct{}, 6)
+	sem := make(chan struct{}, 10)
 	var wg sync.WaitGroup
 	for i, dir := range todo {
 		wg.Add(1)
